@@ -48,12 +48,18 @@ func VerifC12_Liveness() {
 	vals := []sdk.ValAddress{c12Addr0(), keeper.VVals[1], keeper.VVals[2]}
 	// stakes from a small alphabet (the 25% rule is exact on these)
 	tok := []int64{1_000_000, 1_000_000, 8_000_000}
-	for i, v := range vals {
+	// the staking module may yield the large validator before or after the small ones
+	order := []int{0, 1, 2}
+	if sym.Bool("large-validator-iterated-first") {
+		order = []int{2, 0, 1}
+	}
+	v1Unbonding := sym.Bool("v1-unbonding")
+	for _, i := range order {
 		status := stakingtypes.Bonded
-		if i == 1 && sym.Bool("v1-unbonding") {
+		if i == 1 && v1Unbonding {
 			status = stakingtypes.Unbonding
 		}
-		env.Staking.Add(v, status, false, sdkmath.NewInt(tok[i]), tok[i]/1_000_000)
+		env.Staking.Add(vals[i], status, false, sdkmath.NewInt(tok[i]), tok[i]/1_000_000)
 	}
 	// validator 0 and 1 may hold a keep-alive taken at an earlier height
 	aliveUntil := map[int]int64{}
